@@ -196,6 +196,30 @@ class CallMixin:
             for key in list(st.sorts):
                 st.havoc(key)
             return
+        if e == 'world':
+            wk = self.world_keys()
+            import tokens as _tk
+            if not hasattr(self, 'token_rules'): self.token_rules = _tk.parse_rules(self)
+            stable = {}
+            for r in self.token_rules:
+                if r.kind in ('nonzero', 'monotone') and r.key in st.sorts:
+                    stable[r.key] = (r, st.arr(r.key, *st.sorts[r.key]))
+            for key in list(st.sorts):
+                if key in wk or key.startswith('mem:') or key.startswith('sync/atomic.Value') or key.startswith('chan.') or key.startswith('global:'):
+                    st.havoc(key)
+            # what other threads / callbacks can never do to the declared words
+            x = Int('st!x')
+            for key, (r, oldarr) in stable.items():
+                nidx, srt = st.sorts[key]
+                new = st.arr(key, nidx, srt)
+                if nidx == 2 and r.idx is not None:
+                    o, n = Select(Select(oldarr, x), IntVal(r.idx)), Select(Select(new, x), IntVal(r.idx))
+                elif nidx == 1:
+                    o, n = Select(oldarr, x), Select(new, x)
+                else: continue
+                fact = Implies(o != 0, n != 0) if r.kind == 'nonzero' else (n >= o)
+                st.assume(z3.ForAll([x], fact, patterns=[n]))
+            return
         root = e.split('.')[0].split('[')[0]
         if root in oldenv['vars']:
             for key, idx, srt in self.ev_lval(cparse.parse_expr(e), oldenv):
